@@ -40,6 +40,8 @@ def configure(cfg, r, tier):
     for op in ("cleanup", "convert_labels_to_integers", "largest_connected_hypergraph", "clear", "freeze"):
         t.pop(op, None)
     t["dup_edge"] = 2.0
+    if r.random() < 0.4:
+        cfg["max_members"] = 7  # sets of five to seven members change their table size when copied
 
 
 def next_record(sim):
@@ -216,6 +218,11 @@ def evaluate(xgi, name, H, r):
         return ("nodes", xgi.katz_centrality(H, cutoff=30))
     if name == "incidence_matrix":
         kw = {"order": r.choice([None, 1, 2]), "sparse": r.random() < 0.5}
+        if r.random() < 0.4:
+            # a weight callback that depends on the node and the edge through label-free
+            # quantities only (degree and size), so that relabelling permutes the weights with them
+            kw["weight"] = lambda n, e, G: 10.0 * len(G.nodes.memberships(n)) + len(G.edges.members(e)) \
+                + 100.0 * sum(len(G.edges.members(f)) for f in G.nodes.memberships(n))
         M, rd, cd = xgi.incidence_matrix(H, index=True, **kw)
         return ("matrix", M, rd, cd, "n", "e")
     if name == "adjacency_matrix":
